@@ -110,10 +110,12 @@ def gen_plan(seed, tier):
     for _ in range(n):
         r = rng.random()
         name = rng.choice(ALL if not restricted else
-                          [HEAD, A, B, C_, T, RM])
+                          [HEAD, A, B, C_, T, RM, S1])
         # the dict and reftable backends are only promised to agree on
-        # sequences that do not write through symbolic refs
-        wname = name if not restricted or name != HEAD else \
+        # sequences that do not write through symbolic refs (creating,
+        # re-pointing and deleting the symbolic ref itself is not a write
+        # *through* it)
+        wname = name if not restricted or name not in (HEAD, S1) else \
             rng.choice([A, B, C_, T, RM])
         if r < 0.16:
             ops.append({"k": "set", "name": wname, "new": fresh()})
@@ -134,7 +136,7 @@ def gen_plan(seed, tier):
                    L2: L1}[src]
             ops.append({"k": "symref", "name": src, "target": tgt})
         elif r < 0.55:
-            ops.append({"k": "symref", "name": HEAD,
+            ops.append({"k": "symref", "name": rng.choice([HEAD, HEAD, S1]),
                         "target": rng.choice([A, B, C_])})
         elif r < 0.64 and backend == "files":
             ops.append({"k": "pack", "all": rng.random() < 0.75})
@@ -248,6 +250,7 @@ def run_plan(plan):
             f.write(b"ref: refs/heads/a\n")
         m.d[HEAD] = SYM + A
         peeled = {}
+        peel_of = {}  # value -> what the initial packed-refs says it peels to
         if plan["init_packed"] and backend == "files":
             lines = [b"# pack-refs with: peeled fully-peeled sorted \n"]
             for nm in sorted(plan["init_packed"]):
@@ -255,6 +258,7 @@ def run_plan(plan):
                 lines.append(v.encode() + b" " + nm.encode() + b"\n")
                 if plan["peeled"] and nm == T:
                     peeled[T] = val(9999)
+                    peel_of[v] = peeled[T]
                     lines.append(b"^" + peeled[T].encode() + b"\n")
                 m.d[nm] = v
             with open(os.path.join(gitdir, "packed-refs"), "wb") as f:
@@ -685,6 +689,31 @@ def run_plan(plan):
             if any(nm in m.d and os.path.lexists(os.path.join(
                     gitdir, nm)) for nm in plan["init_packed"]):
                 stats["probe:loose_over_packed"] = 1
+            # get_peeled(): None (nothing on record), the value itself (known
+            # not to be a tag) or what was recorded for *this* value -- never
+            # what was recorded for a value the ref has moved away from
+            if backend == "files":
+                for nm in sorted(want_keys):
+                    cur = m.d[nm]
+                    if cur.startswith(SYM):
+                        continue
+                    try:
+                        pv = c.get_peeled(nm.encode())
+                    except Exception as e:  # noqa: BLE001
+                        viol(f"get_peeled-raised/{who}/{type(e).__name__}",
+                             f"{desc}: {nm}: {e!r}")
+                        return
+                    pv = pv.decode() if pv is not None else None
+                    ok = {None, cur}
+                    if peel_of.get(cur):
+                        ok.add(peel_of[cur])
+                        stats["probe:peeled_line_on_record"] = 1
+                    if pv not in ok:
+                        viol(f"model-mismatch/peeled/{who}",
+                             f"{desc}: get_peeled({nm}) = {pv}, the ref "
+                             f"holds {cur}"
+                             f"{' which peels to ' + peel_of[cur] if peel_of.get(cur) else ''}")
+                        return
 
         act = sim.run_inline("main", body)
         gc.collect()
